@@ -25,6 +25,11 @@ CHECKS = {
     technique="TLA+ oracle Fetches.tla evaluated by TLC on generated Fetches shapes; all accessors compared (binding O1)",
     text="Fetches.tla defines the canonical record sequence, partition multiset, per-topic merge (with topic id) and error list of an abstract Fetches value. TLC generates thousands of shapes (multi-fetch, repeated topics with and without ids, empty pieces, errors mixed with records) with the expected outputs; the runner builds the kgo.Fetches and compares RecordIter, RecordsAll (incl. early break), EachRecord, Records, NumRecords, Empty, EachPartition, EachTopic, Errors and EachError.",
     note="Shapes are sampled by TLC's RandomElement (seeded), not enumerated exhaustively; topics are distinct within one fetch as in broker responses."),
+ "C37": dict(
+    level="model_checking", design="5/C37",
+    technique="TLA+ spec Carrier.tla model-checked by TLC (map-update action property); all behaviours replayed on kotel.RecordCarrier (binding R) + end-to-end propagation run",
+    text="Carrier.tla models the header list with Set/Get/Keys and checks, as an action property, that Set is exactly a map update on the first-value-per-key view. TLC emits every behaviour (all initial lists incl. duplicate keys x all operation sequences to the bound); each is replayed on the real carrier comparing the whole header list after every step. The injected-then-extracted clause is run through kgo+kfake with the real kotel hooks and W3C propagator.",
+    note="Alphabet 3 keys x 2 values, lists <=3, 3-4 operations; the end-to-end clause samples 12 records over one kfake broker."),
 }
 
 NOT_APPLICABLE = {
